@@ -1033,6 +1033,15 @@ impl<'a> Parser<'a> {
     fn parse_fragment_definition(&mut self) -> ParseResult<FragmentDefinition> {
         let start = self.index();
         let fragment = self.parse_keyword("fragment")?;
+        // FragmentName : Name but not `on`
+        if self.peek_keyword("on") {
+            let error = Diagnostic::error(
+                "A fragment cannot be named `on`",
+                Location::new(self.source_location, self.peek().span),
+            );
+            self.record_error(error);
+            return Err(());
+        }
         let name = self.parse_identifier()?;
         let variable_definitions = if self.features.supports_variable_definition_syntax() {
             self.parse_optional_delimited_nonempty_list(
